@@ -63,6 +63,7 @@ type Gen struct {
 	dynArr    bool
 	names     []string
 	heavy     Expr    // the shared Heavy(...) atom of this program, if any
+	heavyBool bool    // ... which is the boolean method HeavyB
 	sharedB   Expr    // a boolean sub-expression shared between rules
 	sharedSet *Action // a setter call statement that several rules of the program use verbatim
 	used      []loc   // integer locations read by the conditions generated so far
@@ -86,8 +87,10 @@ func (g *Gen) intLocs() []loc {
 		ls = append(ls, loc{"J.a", false}, loc{"J.o.n", false}, loc{"J.arr[1]", false}, loc{"J.a", false})
 	}
 	if g.dynArr {
-		// (F.Arr[1 - F.I] is never the element F.Arr[F.I] denotes at the same time, and both are reset when F.I is assigned)
-		ls = append(ls, loc{"F.Arr[F.I]", true}, loc{"F.Arr[F.I]", true}, loc{"F.Arr[1-F.I]", true})
+		// (only ONE selector expression per container among the places rules read: another one, e.g. F.Arr[1 - F.I], would sooner
+		//  or later denote an element that F.Arr[F.I + 1] or F.Arr[F.I] denotes too - the selector-aliasing known finding; computed
+		//  selectors are exercised on the write-only F.Out instead)
+		ls = append(ls, loc{"F.Arr[F.I]", true}, loc{"F.Arr[F.I]", true})
 	} else {
 		ls = append(ls, loc{"F.Arr[0]", true}, loc{"F.Arr[1]", true})
 	}
@@ -111,7 +114,7 @@ func (g *Gen) genInt(d int) (Expr, bool) {
 		switch {
 		case g.chance(0.35):
 			return CI(int64(g.pick(5))), true
-		case g.heavy != nil && g.chance(0.5):
+		case g.heavy != nil && !g.heavyBool && g.chance(0.5):
 			return g.heavy, true
 		case g.chance(g.p.PFault):
 			return g.faultInt(), true
@@ -172,8 +175,11 @@ func (g *Gen) methodInt(d int) (Expr, bool) {
 	case 2:
 		return &Call{Recv: P("F"), Fn: "Sum", Args: []Expr{g.exactInt(d - 1), g.exactInt(d - 1)}}, true
 	case 3:
-		if g.p.OneHeavy {
+		if g.p.OneHeavy && !g.heavyBool {
 			return g.heavy, true
+		}
+		if g.p.OneHeavy {
+			return CI(int64(g.pick(4))), true
 		}
 		return &Call{Recv: P("F"), Fn: "Heavy", Args: []Expr{g.exactInt(d - 1)}}, true
 	default:
@@ -232,6 +238,12 @@ func (g *Gen) genStr(d int) Expr {
 }
 
 func (g *Gen) genBool(d int) Expr {
+	if g.heavy != nil && g.heavyBool && g.chance(0.35) {
+		if g.chance(0.25) {
+			return &Not{E: g.heavy, Atom: true}
+		}
+		return g.heavy
+	}
 	c := g.pick(12)
 	if g.sharedB != nil && d < 2 && g.chance(0.25) {
 		return g.sharedB
@@ -474,6 +486,10 @@ func (g *Gen) Program() *Program {
 			l = ls[g.pick(len(ls))]
 		}
 		g.heavy = &Call{Recv: P("F"), Fn: "Heavy", Args: []Expr{mkExact(g.locPath(l), l.exact)}}
+		if g.heavyBool = g.p.OneHeavy && g.chance(0.3); g.heavyBool {
+			// the counted atom is a boolean method: it can be a whole condition (when F.HeavyB(x)) as well as an operand
+			g.heavy = &Call{Recv: P("F"), Fn: "HeavyB", Args: []Expr{mkExact(g.locPath(l), l.exact)}}
+		}
 	}
 	if g.chance(0.4) {
 		g.sharedB = g.genBool(1)
